@@ -21,6 +21,7 @@ Require Import Ctpg.Proofs.LRComplete.
 Require Import Ctpg.Model.Buffers.
 Require Import Ctpg.Proofs.BuffersCorrect.
 Require Import Ctpg.Model.Containers.
+Require Import Ctpg.Proofs.StackVectorLink.
 From Coq Require Import Permutation.
 
 (* for every algebra of functors: when no stack pop by recovery happened, the value stack is the bottom-up, left-to-right evaluation of the tree stack, the final context is the one threaded through that evaluation, and the functor calls are the post-order of the trees *)
@@ -58,3 +59,9 @@ Theorem C02_a_terms_lexeme_is_the_slice_of_the_text :
   forall (text : list nat) (s e : nat), s <= e -> e <= length text -> sb_get_view {| sb_str := text |} s e = Ok (slice text s e).
 Proof. exact @sb_view_spec. Qed.
 Print Assumptions C02_a_terms_lexeme_is_the_slice_of_the_text.
+
+(* LINK (value stack): the n values a reduction reads from the cvector / vector starting at end() - n are the driver model's rev (firstn n values): the children's values in right-side order *)
+Theorem C02_reduction_arguments_on_the_vector_are_in_right_side_order :
+  forall (A : Type) (c : cvector A) (l : list A) (n : nat), stack_rel c l -> n <= length l -> skipn (length l - n) (cv_abs c) = rev (firstn n l).
+Proof. exact @arg_order_sim. Qed.
+Print Assumptions C02_reduction_arguments_on_the_vector_are_in_right_side_order.
